@@ -25,7 +25,10 @@ Main results
   `setM_phase_row` — what a write changes and what reads back.
 * `alias_unique` — the table after `compile`.
 * `phase_lookup` (general) and `phase_lookup_table` (complete 32 × 5 table, by evaluation).
-* `lookup_bounded`, `trim_bounded` — the memo dictionaries stay within 100 / 500 entries.
+* `lookup_bounded`, `trim_bounded` — one-step bounds: a memo within its limit before a lookup / insertion is within it after.
+* `group_scalar_after_define` derives the hypotheses of `set_group_scalar` from `Chem.defineGroup` (lemma `defineGroup_spec`:
+  index = positions of the IDs in the given order, composition aligned with it and summing to 1 when the total is not 0);
+  `setM_allphase_frame` is the frame statement for `(..., IDs)` writes of a scalar.
 * `names_never_move` (+ `_spec`, `step_chems`) — for every history a name of a chemical keeps its position
   (needs the rejection rule of fixes_proposed/C10-5); `set_fail_frame`, `setSplit_frame`,
   `setSplit_grp_scalar`, `deep_key_rejected`, `expandRows_get`.
@@ -51,6 +54,9 @@ theorem step_sim (w : World) (h : Inv w) (op : Op) :
   | newSplitIx c => exact step_newSplitIx w h c
   | get i key => exact step_get w h i key
   | set i key d => exact step_set w h i key d
+  | resetChem i c' => exact step_resetChem w h i c'
+  | copyIx i => exact step_copyIx w h i
+  | getIndex c key => exact step_getIndex w h c key
   | copyLike l r => exact step_transfer w h l r false
   | mixFrom l r => exact step_transfer w h l r true
 
@@ -429,6 +435,62 @@ theorem set_group_scalar (c : Chem) (row : Row) (name : String) (is : List Nat) 
   · intro hs
     simp only [getIx]
     rw [writeZip_read is _ row hn (by simp [hl]) hb, sumRat_map_mul, hs, Rat.mul_one]
+
+/-- **From the definition of a group to the scalar written to it.**  After
+`define_group(name, IDs, composition)` the key `name` resolves to the positions of the IDs in the
+order given; a scalar `x` written through it gives the `j`-th ID `x · composition_j / Σ composition`
+and reads back as `x` — the hypotheses of `set_group_scalar` are what `define_group` establishes
+(distinct in-range members and a non-zero total being the only assumptions left). -/
+theorem group_scalar_after_define {c c' : Chem} {res : List String} {name : String} {ids : List String}
+    {comp : List Rat} (h : c.defineGroup res name ids (some comp) false = .ok c')
+    (hs : sumRat comp ≠ 0) (row : Row) (x : Rat) :
+    ∃ index, c.indices ids = .ok (index.map Ent.pos) ∧
+      resolveC c' (.leaf (.str name)) = .ok (.grp index) ∧
+      (index.Nodup → (∀ i, i ∈ index → i < row.length) →
+        ∃ row', setIx c' row (.grp index) (.leaf (.str name)) (.scalar x) = .ok row' ∧
+          index.map (getAt row') = (normalise comp).map (x * ·) ∧
+          getIx row' (.grp index) = .scalar x) := by
+  obtain ⟨index, h1, h2, h3, _, h5, h6⟩ := defineGroup_spec h
+  refine ⟨index, h1, by simp [resolveC, Chem.lookup, h2, bind, Except.bind, pure, Except.pure], ?_⟩
+  intro hn hb
+  obtain ⟨row', r1, r2, r3⟩ := set_group_scalar c' row name index (normalise comp) x h3 hn h5 hb
+  exact ⟨row', r1, r2, r3 (h6 hs)⟩
+
+/-- **set_frame across phases, `(..., IDs)`.**  A scalar, or 1-d data per chemical, written
+through the ellipsis phase is the single-phase write applied to every row: in every phase the
+entries outside the addressed positions are untouched, and no row is added or lost.  (Per-phase
+columns and 2-d data — `writeColumn`, `writeRowsZip` — are tied to the code by correspondence and the
+oracle only.) -/
+theorem setM_allphase_frame (c : Chem) (data data' : List Row) (ix : Ix) (k : HKey) (x : Rat)
+    (h : setM c data (.sub none ix) k (.scalar x) = .ok data') :
+    data'.length = data.length ∧
+    ∀ (p : Nat) (r : Row), data[p]? = some r → ∃ r', data'[p]? = some r' ∧ r'.length = r.length ∧
+      ∀ j, j ∉ positions ix r.length → getAt r' j = getAt r j := by
+  cases ix with
+  | all => simp [setM] at h
+  | nested es => simp [setM] at h
+  | one i =>
+    simp only [setM] at h; cases h
+    refine ⟨by simp, ?_⟩
+    intro p r hr
+    refine ⟨setAt r i x, by simp [hr], length_setAt _ _ _, ?_⟩
+    intro j hj; simp only [positions, List.mem_singleton] at hj; exact getAt_setAt_ne _ _ hj
+  | arr is =>
+    simp only [setM] at h; cases h
+    refine ⟨by simp, ?_⟩
+    intro p r hr
+    exact ⟨writeAll r is x, by simp [hr], length_writeAll _ _ _, fun j hj => writeAll_frame _ _ _ _ hj⟩
+  | grp is =>
+    simp only [setM, bind, Except.bind] at h
+    split at h
+    · cases h
+    · rename_i comp _
+      split at h
+      · cases h
+      · simp only [pure, Except.pure] at h; cases h
+        refine ⟨by simp, ?_⟩
+        intro p r hr
+        exact ⟨writeZip r is (comp.map (x * ·)), by simp [hr], length_writeZip _ _ _, fun j hj => writeZip_frame _ _ _ _ hj⟩
 
 /-! ## Names: `alias_unique` -/
 
